@@ -93,9 +93,12 @@ def _job(args):
     rnd = random.Random(seed * 7919 + k0)
     try:
         for ri, row in enumerate(rows):
-            form, n, c = row['form'], row['n'], (None if row['c'] == NONE else row['c'])
+            form, n, c0 = row['form'], row['n'], (None if row['c'] == NONE else row['c'])
             for rep in range(reps):
                 j = (k0 + ri) * 31 + rep * 7 + seed
+                # chunklen also as a NumPy integer of some width (same value)
+                ct = [None, None, np.int64, None, np.uint8, np.uint64, None, np.int16][(j // 19) % 8]
+                c = ct(c0) if (ct is not None and c0 is not None) else c0
                 nt = NUMTYPES[j % 13]
                 bo = BYTEORDERS[(j // 13) % 2]
                 tail = TAILS[(j // 3) % len(TAILS)]
@@ -235,6 +238,11 @@ def _job(args):
                         got = '%s: %s' % (type(e).__name__, str(e)[:100])
                         a = None
                     out['ran'] += 1
+                    if got != 'ok' and isinstance(c, np.integer):
+                        # whether a NumPy integer is accepted as chunklen is the library's choice; refusing it
+                        # is fine, storing a wrong array is not
+                        out['refused_numpy_int'] = out.get('refused_numpy_int', 0) + 1
+                        continue
                     if got != 'ok':
                         out['bad'].append({'case': desc, 'expected': 'created', 'got': got,
                                            'zero_length': n == 0})
